@@ -11,4 +11,7 @@ theorem flag_resetViaWriter : Generated.cfg.resetViaWriter = true := by decide
 theorem sk_serve : Generated.sk_server_handler_serve = Expected.sk_server_handler_serve := by decide
 theorem sk_processStreamingRpc : Generated.sk_server_handler_processStreamingRpc = Expected.sk_server_handler_processStreamingRpc := by decide
 theorem sk_resetStream : Generated.sk_server_handler_resetStream = Expected.sk_server_handler_resetStream := by decide
+/-- runStream cancels the stream's context (deferred handler.cancel()) BEFORE unregisterStream asks for the registry lock -/
+theorem sk_runStream : Generated.sk_server_handler_runStream = Expected.sk_server_handler_runStream := by decide
+theorem sk_unregisterStream : Generated.sk_server_handler_unregisterStream = Expected.sk_server_handler_unregisterStream := by decide
 end Goat.Tie.C12
